@@ -6,7 +6,7 @@ V = os.path.dirname(os.path.dirname(os.path.abspath(__file__)))
 only = sys.argv[1:]
 out = {}
 for d in sorted(os.listdir(os.path.join(V, "seeded"))):
-    if only and not any(o in d for o in only):
+    if not os.path.isdir(os.path.join(V, "seeded", d)) or (only and not any(o in d for o in only)):
         continue
     pd = os.path.join(V, "seeded", d, "patch.diff")
     prop = d.split("-")[0]
